@@ -116,7 +116,8 @@ FastRational gcd(FastRational const & a, FastRational const & b)
 {
     assert(a.isInteger() and b.isInteger());
     if (a.wordPartValid() && b.wordPartValid()) {
-        return FastRational(gcd(a.num, b.num));
+        // on magnitudes: the signed remainder would give a negative "gcd" (or overflow for WORD_MIN % -1)
+        return FastRational(gcd<uword>(absVal(a.num), absVal(b.num)));
     }
     else {
         a.ensure_mpq_valid();
@@ -130,7 +131,8 @@ FastRational lcm(FastRational const & a, FastRational const & b)
 {
     assert(a.isInteger() and b.isInteger());
     if (a.wordPartValid() && b.wordPartValid()) {
-        return lcm(a.num, b.num);
+        // on magnitudes, as for gcd: the least common multiple is non-negative
+        return lcm<uword>(absVal(a.num), absVal(b.num));
     }
     else {
         a.ensure_mpq_valid();
